@@ -1367,7 +1367,7 @@ def _writes_name(node, names):
     return False
 
 
-def inline_simple_lets(stmts, multi=False, mut_names=None, ro_self=False, pure_calls=()):
+def inline_simple_lets(stmts, multi=False, mut_names=None, ro_self=False, pure_calls=(), force=False):
     """statement list with every single-use simple `let name = init;` folded into its use
     (same block, the use not under a loop or closure)"""
     stmts = list(stmts)
@@ -1382,7 +1382,17 @@ def inline_simple_lets(stmts, multi=False, mut_names=None, ro_self=False, pure_c
                 continue
             name = p["name"]
             init = s.get("init")
-            if not _is_simple_init(init, mut_roots=mut_names, allow_self=ro_self, pure_calls=pure_calls):
+            if force:
+                # "naming" lets only: places, references, getters and arithmetic - never the result of real work
+                if init is None or any(x.get("k") in ("Closure", "Macro", "If", "Match", "Block", "Unsafe", "Try") for x in walk(init)):
+                    continue
+                if any(x.get("k") == "MethodCall" and x["args"] and x["method"] not in _SIMPLE_METHODS and x["method"] not in ("div_ceil", "pow", "saturating_sub", "wrapping_add", "rem_euclid") for x in walk(init)):
+                    continue
+                if any(x.get("k") == "MethodCall" and x["method"] in _IMPURE_METHODS for x in walk(init)):
+                    continue
+                if any(x.get("k") == "Call" and not ((path_segs(x["func"]) or ["?"])[-1][:1].isupper() or (path_segs(x["func"]) or ["?"])[-1] in ("new", "from", "default", "try_from")) for x in walk(init)):
+                    continue
+            elif not _is_simple_init(init, mut_roots=mut_names, allow_self=ro_self, pure_calls=pure_calls):
                 continue
             if any(x.get("k") == "Path" and ident(x) == name for x in walk(init)):
                 continue  # `let tape = tape.data();` shadows what it reads: leave it
@@ -1397,7 +1407,9 @@ def inline_simple_lets(stmts, multi=False, mut_names=None, ro_self=False, pure_c
                     if n.get("k") in ("For", "While", "Loop", "Closure") and _uses(n, name):
                         under = True
             reads = {ident(x) for x in walk(init) if x.get("k") == "Path" and ident(x)}
-            if under:
+            if force:
+                pass
+            elif under:
                 # fine when nothing the initialiser reads can change: only immutable locals
                 if mut_names is None or (reads & mut_names):
                     continue
@@ -1406,7 +1418,8 @@ def inline_simple_lets(stmts, multi=False, mut_names=None, ro_self=False, pure_c
                 last = max(k for k, r in enumerate(rest) if _uses(r, name))
                 if any(_writes_name(r, reads & mut_names) for r in rest[: last + 1]):
                     continue
-            stmts = stmts[:i] + [_subst(r, name, init) for r in rest]
+            repl_ = strip(init) if (force and strip(init) is not None and init.get("k") in ("Ref", "Paren")) else init
+            stmts = stmts[:i] + [_subst(r, name, repl_) for r in rest]
             changed = True
             break
     return stmts
@@ -1974,3 +1987,21 @@ def resolve_locals(root, e, depth=3):
         return {k: (sub(v, d) if isinstance(v, (dict, list)) and k != "tokens" else v) for k, v in n.items()}
 
     return unparse(sub(e, depth)).replace(" ", "")
+
+
+def value_view(root):
+    """copy of `root` in which every immutable `let x = init;` (no closure / block / macro / `?` in init) is
+    folded into the uses in its own scope, whatever the initialiser reads: what each expression *is*, for
+    shape comparisons that do not care how intermediate values were named.  Scopes and shadowing are
+    respected; this is not a statement about evaluation order."""
+    def rec(node):
+        if isinstance(node, list):
+            return [rec(x) for x in node]
+        if not isinstance(node, dict):
+            return node
+        out = {k: (rec(v) if isinstance(v, (dict, list)) and k != "tokens" else v) for k, v in node.items()}
+        if out.get("k") == "Block" and isinstance(out.get("stmts"), list):
+            out["stmts"] = inline_simple_lets(out["stmts"], multi=True, force=True)
+        return out
+
+    return rec(root)
